@@ -99,6 +99,7 @@ func main() {
 	timeoutS := flag.Int("timeout", 0, "")
 	expriedS := flag.Int("expried", 0, "")
 	tap := flag.String("tap", "", "")               // diagnostic: pass every connection through a never-cutting forwarder that records both byte streams into this directory
+	trylock := flag.Bool("trylock", false, "wait timeout 0: every acquire is a try-lock (refused at once when it cannot be admitted)")
 	timeoutFlag := flag.Uint("timeout-flag", 0, "") // diagnostic: ORed into the high 16 bits of the lock timeout
 	flag.Parse()
 
@@ -133,6 +134,9 @@ func main() {
 		*expriedS = 120
 	}
 
+	if *trylock {
+		*timeoutS = 0 // timeout and expiry differ as much as they can: a primitive that mixes the two up shows at once
+	}
 	start := time.Now()
 	e := &env{prim: *prim, seed: *seed, salt: *salt, G: *G, K: *K, N: *N, capOffset: *capOffset, holdMaxMs: *holdmax,
 		timeout: uint32(*timeoutS) | uint32(*timeoutFlag)<<16, expried: uint32(*expriedS), cutMode: *cut > 0, start: start, rec: NewRecorder(start)}
